@@ -21,6 +21,9 @@ the files differs from the alphabetical order of their names; the judge takes th
 Every third pair row and every fourth synth row carries @setup / @teardown tags at feature, rule or scenario level (only a
 scenario's OWN tags exempt it from skipping), another third / fourth lives in a directory whose name has a colon, blanks,
 @, # or a dot-digit suffix (pair: list file and features in it; synth: the relative paths in the rerun file contain it).  All multiprocessing Pools are finished before TLC is started.
+A share of the rows with outlines is rendered with prog["hdronly"] (one more Examples table with a heading row only).
+The status of a scenario is the one observed on the object that was announced to the formatters during the run
+(run/reports_c17.ScenStatusRecorder), the final walk over the model only where nothing was announced.
 TLC (Rerun_Trace) judges all rows: which scenarios are unsuccessful is computed there from the recorded final
 statuses.  Python renders, runs, records."""
 import io
@@ -191,15 +194,16 @@ def pair_case(job):
         path = os.path.join(base, "rerun.txt")
         with open(path, "w", encoding="utf-8") as fh:
             fh.write(PLANTED)
-        case = dict(job, extra_args=["-f", "rerun", "-o", path])
+        case = dict(job, extra_args=["-f", "rerun", "-o", path] + RP.RECORDER_ARGS)
         case.pop("reports", None)
         row = drive.run_case(case)
         end = row["end"]
+        status = RP.merged_status(end["status"], RP.seen_status(R))     # of the scenario objects that ran, else of the final walk
         file = RP.read_file(path, R, planted=PLANTED)
         loop = dict(NO_LOOP)
         if file["exists"] and not file["stale"]:
             loop = feed_back(base, R)
-        return {"key": job["key"], "row": make_row(0, "pair", flat, R, job["cfg"]["dry"], end["ran"] and not end["escaped"], end["status"],
+        return {"key": job["key"], "row": make_row(0, "pair", flat, R, job["cfg"]["dry"], end["ran"] and not end["escaped"], status,
                                                    calls_of(row["events"]), True, file, loop),
                 "raw": file["raw"], "escaped": end["escaped"]}
     except Exception:
@@ -246,6 +250,8 @@ def synth_case(job):
         if job.get("revfiles"):
             prog["revfiles"] = True
         prog = tagged(prog, job.get("tagv", 0))
+        if job.get("hdronly"):
+            prog["hdronly"] = True
         flat = G.flatten(prog)
         if [e["kind"] for e in flat["elems"]] != case["kinds"] or [e["parent"] for e in flat["elems"]] != case["parents"]:
             raise RuntimeError("element table of the emitted shape and of gen.flatten differ")
@@ -414,7 +420,8 @@ def judge(chk, rows, metas):
         for v in vs:
             meta, row = metas[rid], byid[rid]
             payload = {"kind": row["kind"], "show": meta.get("show", True), "dupnames": meta.get("dupnames", False),
-                       "revfiles": meta.get("revfiles", False), "tagv": meta.get("tagv", 0), "oddpath": meta.get("oddpath", 0)}
+                       "revfiles": meta.get("revfiles", False), "tagv": meta.get("tagv", 0), "oddpath": meta.get("oddpath", 0),
+                       "hdronly": meta.get("hdronly", False)}
             if "job" in meta:
                 payload["job"] = {k: meta["job"][k] for k in ("key", "prog", "cfg", "fault", "fault_kind", "oddpath") if k in meta["job"]}
             else:
@@ -444,19 +451,22 @@ def run(chk):
     jobs, planned = plan_jobs(chk, 1200 if quick else 16000)
     # Every second multi-feature run / pair row is rendered with prog["revfiles"]: the feature files are handed to the
     # runner in the order f2, f1, f0, so run order and alphabetical order of the paths differ.
-    def variant(j, dup, rev):
+    def variant(j, dup, rev, hdr=False):
         extra = {}
         if dup:
             extra["dupnames"] = True
+        if hdr and any(e["kind"] == "outline" for e in j["flat"]["elems"]):
+            extra["hdronly"] = True          # every outline gets one more Examples table with a heading row only
         if rev and len(j["prog"]["features"]) > 1:
             extra["revfiles"] = True
         return dict(j, prog=dict(j["prog"], **extra)) if extra else j
-    rjobs = [dict(variant(j, False, n % 2 == 0), reports=True, plugins=["c17"]) for n, j in enumerate(jobs)]
+    rjobs = [dict(variant(j, False, n % 2 == 0, n % 3 == 1), reports=True, plugins=["c17"], extra_args=RP.RECORDER_ARGS)
+             for n, j in enumerate(jobs)]
     run_out = stage.drive_all(rjobs, procs=PROCS)
     # Every third pair row carries @setup / @teardown tags (feature, rule or scenario level), every third lives in an oddly
     # named directory (colon, blanks, @, #, dot-digit suffix).
     def pvariant(n, j):
-        j = variant(j, n % 2 == 0, (n // 2) % 2 == 0)
+        j = variant(j, n % 2 == 0, (n // 2) % 2 == 0, n % 5 in (1, 3))
         if n % 3 == 0:
             p = tagged(j["prog"], 1 + (n // 3) % 4)
             j = dict(j, prog=p, flat=G.flatten(p))
@@ -487,7 +497,8 @@ def run(chk):
         rev = len(c["sh"]) > 1 and (len(sjobs) // 3) % 2 == 0     # every second two-feature model: files f1, f0
         n = len(sjobs)
         opts = {"dupnames": dup, "revfiles": rev, "tagv": 1 + (n // 4) % 4 if n % 4 == 1 else 0,
-                "oddpath": 1 + (n // 4) % len(ODD_DIRS) if n % 4 == 2 else 0}
+                "oddpath": 1 + (n // 4) % len(ODD_DIRS) if n % 4 == 2 else 0,
+                "hdronly": n % 2 == 1 and any(it["k"] in ("o", "x") for its in c["sh"] for it in its)}
         sjobs.append(dict({"key": ["synth", len(sjobs)], "case": c, "show": True}, **opts))
         if c["hidden"]["ann"] != c["shown"]["ann"]:
             sjobs.append(dict({"key": ["synth", len(sjobs)], "case": c, "show": False}, **opts))
@@ -504,8 +515,8 @@ def run(chk):
         end = o["end"]
         R = Rendered(job["prog"], job["flat"])
         rid = len(rows) + 1
-        rows.append(make_row(rid, "run", job["flat"], R, job["cfg"]["dry"], end["ran"] and not end["escaped"], end["status"],
-                             calls_of(o["events"]), False, rep, dict(NO_LOOP)))
+        rows.append(make_row(rid, "run", job["flat"], R, job["cfg"]["dry"], end["ran"] and not end["escaped"],
+                             RP.merged_status(end["status"], rep["seen_status"]), calls_of(o["events"]), False, rep, dict(NO_LOOP)))
         metas[rid] = {"job": job, "raw": rep.get("raw", [])}
         not_judged += 0 if rows[-1]["ran"] else 1
     for job, o in zip(pjobs, pair_out):
@@ -518,7 +529,7 @@ def run(chk):
         rid = len(rows) + 1
         rows.append(dict(o["row"], id=rid))
         metas[rid] = {"case": job["case"], "show": job["show"], "dupnames": job["dupnames"], "revfiles": job["revfiles"],
-                      "tagv": job["tagv"], "oddpath": job["oddpath"], "raw": o["raw"]}
+                      "tagv": job["tagv"], "oddpath": job["oddpath"], "hdronly": job["hdronly"], "raw": o["raw"]}
         if o["diffs"]:
             sdiv.append({"row": rid, "model": {k: job["case"][k] for k in ("sh", "ss", "hk")}, "diff": o["diffs"][:2]})
     verdicts = judge(chk, rows, metas)
@@ -543,6 +554,8 @@ def run(chk):
     fbrows = [x for x in rows if x["loop"]["done"]]
     chk.extra["feed_back_rows_in_oddly_named_directories"] = sum(
         1 for x in fbrows if metas[x["id"]].get("oddpath") or metas[x["id"]].get("job", {}).get("oddpath"))
+    chk.extra["rows_with_header_only_examples_table_and_file"] = sum(
+        1 for x in with_file if metas[x["id"]].get("hdronly") or metas[x["id"]].get("job", {}).get("prog", {}).get("hdronly"))
     chk.extra["feed_back_rows_with_setup_teardown_tags"] = sum(
         1 for x in fbrows if any(t in ("setup", "teardown") for e in x["prog"] for t in e["tags"]))
     chk.extra["multi_file_rows_with_file_and_reversed_file_names"] = sum(
@@ -579,7 +592,8 @@ def replay(chk, payload):
     rows, metas = [], {}
     if rp["kind"] == "synth":
         o = synth_case({"key": ["replay"], "case": rp["case"], "show": rp.get("show", True), "dupnames": rp.get("dupnames", False),
-                        "revfiles": rp.get("revfiles", False), "tagv": rp.get("tagv", 0), "oddpath": rp.get("oddpath", 0)})
+                        "revfiles": rp.get("revfiles", False), "tagv": rp.get("tagv", 0), "oddpath": rp.get("oddpath", 0),
+                        "hdronly": rp.get("hdronly", False)})
         if "driver_error" in o:
             raise RuntimeError(o["driver_error"])
         rows.append(dict(o["row"], id=1))
@@ -587,7 +601,7 @@ def replay(chk, payload):
     else:
         job = dict(rp["job"])
         job["flat"] = G.flatten(job["prog"])
-        o = stage.drive_all([dict(job, reports=True, plugins=["c17"])], procs=1)[0]
+        o = stage.drive_all([dict(job, reports=True, plugins=["c17"], extra_args=RP.RECORDER_ARGS)], procs=1)[0]
         p = pair_case(job)
         for x in (o, p):
             if "driver_error" in x:
@@ -595,8 +609,8 @@ def replay(chk, payload):
         R = Rendered(job["prog"], job["flat"])
         end = o["end"]
         rep = o["reports"]["c17"]
-        rows.append(make_row(1, "run", job["flat"], R, job["cfg"]["dry"], end["ran"] and not end["escaped"], end["status"],
-                             calls_of(o["events"]), False, rep, dict(NO_LOOP)))
+        rows.append(make_row(1, "run", job["flat"], R, job["cfg"]["dry"], end["ran"] and not end["escaped"],
+                             RP.merged_status(end["status"], rep["seen_status"]), calls_of(o["events"]), False, rep, dict(NO_LOOP)))
         metas[1] = {"job": job, "raw": rep.get("raw", [])}
         rows.append(dict(p["row"], id=2))
         metas[2] = {"job": job, "raw": p["raw"]}
